@@ -143,12 +143,23 @@ wait:
 		}
 		goto wait
 	case r := <-respChan:
-		orgId := binary.BigEndian.Uint16(q)
-		binary.BigEndian.PutUint16(*r, orgId)
-		return r, nil
+		return restoreMsgId(r, q), nil
 	case <-dc.closeNotify:
+		// The reply may have arrived right before the connection was closed.
+		select {
+		case r := <-respChan:
+			return restoreMsgId(r, q), nil
+		default:
+		}
 		return nil, dc.closeErr
 	}
+}
+
+// restoreMsgId sets the id of reply r to the id of query q.
+func restoreMsgId(r *[]byte, q []byte) *[]byte {
+	orgId := binary.BigEndian.Uint16(q)
+	binary.BigEndian.PutUint16(*r, orgId)
+	return r
 }
 
 func (dc *TraditionalDnsConn) writeQuery(q []byte, assignedQid uint16) error {
@@ -244,7 +255,9 @@ func (dc *TraditionalDnsConn) queueLen() int {
 // It returns a nil c if queue has too many queries.
 // Caller must call deleteQueueC to release the qid in queue.
 func (dc *TraditionalDnsConn) addQueueC() (qid uint16, c chan *[]byte) {
-	c = make(chan *[]byte)
+	// c must have a buffer. The reply may arrive before the caller starts
+	// to wait on c (e.g. it is still in the write call). readLoop never blocks on c.
+	c = make(chan *[]byte, 1)
 	dc.queueMu.Lock()
 	for i := 0; i < 100; i++ {
 		qid = dc.nextQid
